@@ -94,6 +94,31 @@ def run(ctx):
                         continue
                     cases.append({"src": src, "texts": ["a"]})
                     meta.append(("cell", ("if-condition", leaf, cmp_, bad), False))
+    # the type of an operator's RESULT, observed through what may be done with it next: every (operand, operator, operand) cell under every unary operator
+    # and on the left of every binary operator
+    for op in OPS:
+        for lk in "snb":
+            for rk in "snb":
+                x = doc_table(op, REP[lk], REP[rk])
+                if x is None:
+                    continue
+                t = "n" if x == "div0" else x[0]
+                inner = "(%s) %s (%s)" % (EXPRS[lk][0], op, EXPRS[rk][0])
+                if quick and rng.random() < 0.5 and not (op == "+" and lk == "s"):
+                    continue
+                for uop, okk in (("not", "b"), ("head", "s"), ("tail", "s")):
+                    e = "%s (%s)" % (uop, inner)
+                    src = ("set p to pattern 'a' begin return %s end\nfind all p" if uop == "not" else "set f to transform return %s end\nreplace all 'a' with f") % e
+                    cases.append({"src": src, "texts": ["a"]})
+                    meta.append(("cell", ("result of", op, lk, rk, "under", uop), t == okk))
+                for op2 in ("-", "*", "and", "<"):
+                    for rk2 in "sb":
+                        y = doc_table(op2, REP[t], REP[rk2])
+                        e = "(%s) %s (%s)" % (inner, op2, EXPRS[rk2][0])
+                        isb = y is not None and y != "div0" and y[0] == "b"
+                        src = ("set p to pattern 'a' begin return %s end\nfind all p" if isb else "set f to transform return %s end\nreplace all 'a' with f") % e
+                        cases.append({"src": src, "texts": ["a"]})
+                        meta.append(("cell", ("result of", op, lk, rk, "left of", op2, rk2), y is not None))
     for uop, okk in (("not", "b"), ("head", "s"), ("tail", "s")):
         for k in "snb":
             e = "%s (%s)" % (uop, EXPRS[k][0])
